@@ -109,7 +109,8 @@ def gen_yaml(which):
                                     [20, "INS1", "-", "frameshift"]]),
             _A("GA*4.001", "GA*4", [[75, "DEL1", "-", "frameshift"], [45, "SNP1", "rs1"]]),
             _A("GA*5.001", "GA*5", [["GAP", "i1-"]]),
-            _A("GA*6.001", "GA*6", [["GAP", "e3+"], [15, "SNP2", "rs2", "functional"]]),
+            _A("GA*6.001", "GA*6", [["GAP", "e3+"], [15, "SNP2", "rs2", "functional"],
+                                    [85, "SNP6", "rs6"]]),
             _A("GA*7.001", "GA*7", [["GA", "deletion"]]),
             _A("GA*8.001", "GA*8", [[80, "MNP1", "-", "functional"]]),
             _A("GA*9.001", "GA*9", [[50, "SNP5", "rs5", "functional"]]),
